@@ -69,6 +69,35 @@ def fanout_case(rng, op):
     return c
 
 
+def listop_case(rng, op):
+    """the list-valued ops (stack, concat) over operands of MIXED requires_grad in every position (constants before, between and
+    after the tensors that require grad; an operand repeated), some operands interior tensors; root = weighted total, so every
+    slot sees its own upstream gradient and each slice has to reach the operand of ITS slot"""
+    P = gen_dag.Prog()
+    k = rng.randint(2, 4)
+    sh = rng.pick([(2,), (3,), (2, 2), (1, 3)] + ([()] if op == 'stack' else []))
+    flags = [rng.chance(.5) for _ in range(k)]
+    if not any(flags): flags[rng.randrange(k)] = True
+    if all(flags) or rng.chance(.5):
+        flags[rng.randrange(max(1, flags.index(True) + 1) if rng.chance(.3) else max(1, k - 1))] = False      # a constant, mostly BEFORE a tensor that requires grad
+        if not any(flags): flags[-1] = True
+    ids = [P.add_leaf(sh, gen_dag.rand_data(rng, sh), f) for f in flags]
+    xs = [P.add_op('clone' if rng.chance(.5) else 'neg', [t], [], [sh])[0] if rng.chance(.4) else t for t in ids]
+    if rng.chance(.3): xs.insert(rng.randrange(len(xs) + 1), rng.pick(xs))          # the same operand in two slots
+    nd = len(sh)
+    if op == 'stack':
+        ax = rng.randrange(-(nd + 1), nd + 1)
+        out = tuple(int(v) for v in np.stack([np.zeros(sh)] * len(xs), ax).shape)
+    else:
+        ax = rng.randrange(-nd, nd)
+        out = tuple(int(v) for v in np.concatenate([np.zeros(sh)] * len(xs), ax).shape)
+    P.add_op(op, xs, [ax], [out])
+    weighted_total(rng, P)
+    c = finish_case(rng, P)
+    c['listop'] = op + ' ' + ''.join('g' if f else 'c' for f in flags)
+    return c
+
+
 def build_case(rng, tier):
     P = gen_dag.gen_program(rng, rng.randint(2, 4), rng.randint(3, 14 if tier == 'quick' else 40))
     if rng.chance(0.6):
@@ -489,6 +518,11 @@ def cases(rng, tier):
     # layer objects with state, called several times in one graph in different modes before backward
     for _ in range(40 if tier == 'quick' else 1200):
         out.append(stateful_case(rng))
+    for op in ('stack', 'concat'):
+        for _ in range(8 if tier == 'quick' else 200):
+            c = listop_case(rng, op)
+            c['order'] = c['P'].topo_shuffle(rng)
+            out.append(c)
     # corpus: diamond, repeated operand, unbind outputs consumed separately, non-differentiable branch
     for spec in CORPUS:
         P = gen_dag.Prog()
@@ -554,6 +588,10 @@ def distribution(cases):
     for c in cases:
         for n in c['P'].nodes:
             k = n.get('name', 'leaf')
+            d[k] = d.get(k, 0) + 1
+    for c in cases:
+        if c.get('listop'):       # list-valued op, which operand leaves require grad (g) / are constants (c)
+            k = 'list-valued op over mixed operands: ' + c['listop']
             d[k] = d.get(k, 0) + 1
     d['max_ops'] = max(sum(1 for n in c['P'].nodes if n['kind'] == 'op') for c in cases)
     hist = [c for c in cases if c.get('kind') == 'hist' and c.get('hist_op')]
@@ -752,8 +790,8 @@ def _unstrip(d):
 
 
 def search(rng, tier):
-    for _ in range(60):
-        c = build_case(rng, 'quick')
+    for k in range(60):
+        c = listop_case(rng, rng.pick(['stack', 'concat'])) if k % 3 == 0 else build_case(rng, 'quick')
         f = oracle(c)
         if f:
             yield f
